@@ -78,6 +78,20 @@ class BenchAst:
             body.append(f"{q}{sp()}={sp()}{rng.choice(['DFF', 'dff'])}({sp()}{d}{sp()})")
         if rng.random() < 0.7:
             rng.shuffle(body)
+        if self.weird and rng.random() < 0.5:
+            # comments (K45): whole-line and trailing ones whose text looks like statements of the dialect
+            nets = self.inputs + [g[0] for g in self.gates]
+            def comment():
+                x, y = rng.choice(nets), rng.choice(nets)
+                return rng.choice(["#", "# ", "#\t"]) + rng.choice(
+                    [f"OUTPUT({x})", f"INPUT(zz{x})", f"output({x})", f"{x} = AND({x}, {y})", f"zq = NOT({x})",
+                     f"{x} = DFF({y})", "", "# #", f"{rng.randint(0, 9)} inputs"])
+            for _ in range(rng.randint(1, 3)):
+                k = rng.randrange(len(body) + 1)
+                if rng.random() < 0.5 or k == len(body):
+                    body.insert(k, comment())
+                else:
+                    body[k] = body[k] + rng.choice(["", " ", "\t"]) + comment()
         return "\n".join(lines + body) + rng.choice(["", "\n", "\n\n"])
 
     def evaluate(self, assign):
@@ -139,7 +153,7 @@ class P(Prop):
             if d:
                 self.fail("corr", "bench-read", d, {"text": text})
             # (c) writer
-            circ = gen.circuit(rng, n_in=(1, 4), n_gates=(1, 7), consts=0.3, adversarial=0.0)
+            circ = self.hostile_names(gen.circuit(rng, n_in=(1, 4), n_gates=(1, 7), consts=0.3, adversarial=0.0))
             seed = rng.randint(0, 5)
             with ordered(seed):
                 o, t = call(cg.io.circuit_to_bench, circ)
@@ -218,7 +232,12 @@ class P(Prop):
             return
         consts = [n for n in c.graph.nodes if c.type(n) in ("0", "1")]
         tag = ":with-constants" if consts else ""
+        nonid = [n for n in c.graph.nodes if not re.fullmatch(r"[a-zA-Z_][a-zA-Z0-9_]*", n)]
         if c2.inputs() != c.inputs() or c2.outputs() != c.outputs():
+            # K46 (narrow): the only nets that went missing are those whose names are not identifiers of the dialect
+            lost = (c.inputs() | c.outputs()) - (c2.inputs() | c2.outputs())
+            if nonid and lost and lost <= set(nonid) and c2.inputs() <= c.inputs() and c2.outputs() <= c.outputs():
+                tag = ":non-identifier-name"
             self.fail("search", "bench-roundtrip-io" + tag, f"io changed: {sorted(c2.inputs())} {sorted(c2.outputs())}", case)
             return
         for a in all_assignments(sorted(c.inputs())):
@@ -228,6 +247,33 @@ class P(Prop):
                     self.fail("search", "bench-roundtrip-value" + tag, f"output {o_}: {v[o_]} before, {w[o_]} after the round trip under {a}", case)
                     return
 
+    def hostile_names(self, c):
+        """names the writer's own devices must cope with: the circuit's name goes into the `#` header (K45); the constant
+        encoding asks uid for a fresh `<input>_inv` net, so nets already called `<input>_inv`, `<input>_inv_<k>` (dense or
+        with gaps) must not be captured"""
+        rng = self.rng
+        if rng.random() < 0.25:
+            x = rng.choice(sorted(c.graph.nodes))
+            c = c.copy()
+            c.name = rng.choice([f"OUTPUT({x})", "INPUT(zz)", f"{x} = NOT({x})", f"top # OUTPUT({x})", "output ( zz )",
+                                 f"q = DFF({x})"])
+            self.stats.bump("names:statement-like-circuit-name")
+        if rng.random() < 0.3:
+            gates = [n for n in sorted(c.graph.nodes) if c.type(n) != "input"]
+            ins = sorted(c.inputs())
+            rng.shuffle(gates)
+            sufs = rng.choice([["_inv"], ["_inv", "_inv_0"], ["_inv", "_inv_1"], ["_inv", "_inv_0", "_inv_2"],
+                               ["_inv_0"], ["_inv", "_inv_0", "_inv_1"], ["_inv", "_inv_2", "_inv_3"]])
+            mp = {}
+            for g, suf in zip(gates, sufs):
+                i = rng.choice(ins)
+                if i + suf not in c.graph.nodes and i + suf not in mp.values():
+                    mp[g] = i + suf
+            if mp:
+                c = cg.tx.relabel(c, mp)
+                self.stats.bump("names:input_inv-taken")
+        return c
+
     def corpus(self):
         rng = self.rng
         # K10: constants
@@ -236,6 +282,20 @@ class P(Prop):
         c.add("z", "0")
         c.add("o", "or", fanin=["a", "z"], output=True)
         c.add("p", "1", output=True)
+        self.check_roundtrip(c)
+        # K45: comments are not statements (a commented-out line, the writer's own header)
+        ast = BenchAst(rng, dff=False, weird_layout=False)
+        ast.inputs, ast.gates, ast.dffs, ast.outputs = ["a", "b"], [("o", "and", ["a", "b"])], [], ["o"]
+        self.check_read(ast, "INPUT(a)\nINPUT(b)\nOUTPUT(o)\no = AND(a, b) # x = NOT(a)\n#OUTPUT(a)\n# INPUT(zz)\n")
+        c = cg.Circuit(name="OUTPUT(a)")
+        c.add("a", "input")
+        c.add("b", "input")
+        c.add("o", "and", fanin=["a", "b"], output=True)
+        self.check_roundtrip(c)
+        # K46 (known): a net whose name is not an identifier of the dialect is written but cannot be read back
+        c = cg.Circuit(name="k46")
+        c.add("a", "input")
+        c.add("a[0]", "not", fanin="a", output=True)
         self.check_roundtrip(c)
         # K11: blank before the parenthesis; forward-referenced DFF data
         ast = BenchAst(rng, dff=False, weird_layout=False)
@@ -255,6 +315,7 @@ class P(Prop):
                 # a node whose name starts with an underscore (legal for the reader since K40)
                 v = rng.choice(sorted(c.graph.nodes))
                 c = cg.tx.relabel(c, {v: "_" + v})
+            c = self.hostile_names(c)
             self.check_roundtrip(c)
             self.again_after_edit(c, lambda: self.check_roundtrip(c), p=0.2)
             if self.too_many():
